@@ -390,8 +390,10 @@ func checkOptimize(c *Ctx, opt *ssa.Function) {
 			okAtom := "extract[1](" + recv.Args[0].String() + ")"
 			if !pc.implies(okAtom, false) {
 				st, why = broken, "the comma-ok result of the chooser lookup is not tested before Pick: an unencodable residue yields a zero Chooser and Pick panics"
-				if len(pc.atoms()) > 0 {
-					st = unknown
+				for _, a := range pc.atoms() {
+					if strings.Contains(a.Atom.String(), okAtom) || len(opaqueParts(a.Atom, vocabOf(okAtom))) > 0 {
+						st = unknown
+					}
 				}
 				break
 			}
